@@ -41,6 +41,8 @@ def filter_pool(r):
         {"comp": "VEVENT", "prop": {"name": "SEQUENCE", "test": "absent"}},
         {"comp": "VTODO", "prop": {"name": "PERCENT-COMPLETE", "test": "present"}},
         {"comp": "VEVENT", "prop": {"name": "PRIORITY", "test": {"text": "0"}}},
+        {"comp": "VEVENT", "prop": {"name": "RRULE", "test": "present"}},
+        {"comp": "VEVENT", "prop": {"name": "RRULE", "test": "absent"}},
     ]
     for w in r.sample(WINDOWS, 3):
         pool.append({"comp": "VEVENT", "time": list(w)})
@@ -202,8 +204,15 @@ class IndexRun:
                     thr = self.cfg["index_threshold"]
                     thr = 5 if thr is None else thr
                     reps = max(1, thr + 1 - least) if r.random() < 0.6 else r.choice([1, 2, 3, 6])
-                    return {"op": "query_overlap", "a": a, "b": b, "take": r.randint(1, 3), "reps": min(reps, 8)}
+                    op = {"op": "query_overlap", "a": a, "b": b, "take": r.randint(1, 3), "reps": min(reps, 8)}
+                    if r.random() < 0.4:
+                        op["write"] = r.randint(1, 999)
+                        op["reps"] = r.choice([0, 0, 1])
+                    return op
                 return {"op": "query", "filter": r.choice(self.pool)}
+        if k < 0.71 and self.members:
+            # a report that renders members (expansion of recurrences, partial retrieval): rendering is not writing
+            return {"op": "render", "mode": r.choice(["expand", "expand", "comp"])}
         if k < 0.8 or not self.members:
             self.fresh += 0
             name = "o%d.ics" % (len(self.members) + self.fresh)
@@ -288,6 +297,10 @@ class IndexRun:
             self.query(op)
         elif k == "query_overlap":
             self.query_overlap(op)
+        elif k == "render":
+            r = w.req("REPORT", CAL, [dav.XML_CT, ("Depth", "1")], dav.partial_data_body("query", [], op["mode"]))
+            self.digest.update(("render %s %s\n" % (op["mode"], r.status if r else None)).encode())
+            self.count("rendering_reports")
 
     def hrefs_of(self, status, body, base):
         if status != 207:
@@ -333,6 +346,20 @@ class IndexRun:
                     break
         except Exception as e:  # noqa: BLE001 - e.g. a filter the server refuses
             failed = e
+        swapped = None
+        if op.get("write") and failed is None:
+            # a member the suspended query has not reached yet is overwritten now and gets its old
+            # bytes back after the query has been drawn to the end
+            rest = sorted(n for n in self.members if n not in names and n.endswith(".ics"))
+            if rest:
+                n = rest[op["write"] % len(rest)]
+                g = w.req("GET", CAL + n)
+                if g is not None and g.status == 200:
+                    body, _ct = gen.ics(random.Random(op["write"]), "obj-swap-%d" % op["write"], comp="VEVENT", rich=2), None
+                    p = w.req("PUT", CAL + n, [("Content-Type", "text/calendar")], body)
+                    if p is not None and p.status in (201, 204):
+                        swapped = (n, g.body)
+                        self.writes_since_index += 1
         for _ in range(op["reps"]):
             self.query({"op": "query", "filter": op["b"]})
         if failed is None:
@@ -341,6 +368,11 @@ class IndexRun:
                     names.append(name)
             except Exception as e:  # noqa: BLE001
                 failed = e
+        if swapped is not None:
+            w.req("PUT", CAL + swapped[0], [("Content-Type", "text/calendar")], swapped[1])
+            self.writes_since_index += 1
+            failed = failed or "written-meanwhile"
+            self.count("writes_during_suspended_query")
         self.count("fault.query_suspended_mid_result")
         body = dav.calquery_body(fel)
         st, tb = wsgi_call(self.twin, "REPORT", CAL, [dav.XML_CT, ("Depth", "1")], body)
